@@ -12,6 +12,7 @@ import (
 	"encoding/json"
 	"fmt"
 	"os"
+	"runtime"
 	"runtime/debug"
 	"sort"
 	"strings"
@@ -224,7 +225,9 @@ func TestVerifWorker(t *testing.T) {
 			replay: j.Replay, params: j.Params, tier: j.Tier, counters: map[string]int{}, prop: j.Property}
 		res := &runResult{T: "done", Seed: seed, Index: i}
 		zsim.Created = nil
+		stopWatch := spinWatch()
 		runOne(sc, c, res)
+		stopWatch()
 		res.Viol = c.viol
 		res.Counters = c.counters
 		res.Outcome = c.outcome
@@ -277,6 +280,70 @@ func TestVerifWorker(t *testing.T) {
 			os.Exit(2)
 		}
 	}
+}
+
+// spinWatch: code of the system under test that loops without ever reaching a synchronisation point (a yield)
+// freezes the simulation - the scheduler only gets control at yields. If the scheduler has not made a step
+// for 40 s of real time and a goroutine is running inside fzf's own code, the process reports it in the
+// form of a crash (the parent turns it into a violation of class sys.cpu_loop) and exits.
+func spinWatch() func() {
+	done := make(chan struct{})
+	go func() {
+		last, since := -1, time.Now()
+		for {
+			select {
+			case <-done:
+				return
+			case <-time.After(5 * time.Second):
+			}
+			steps := 0
+			for _, sm := range zsim.Created {
+				steps += sm.Stats.Steps
+			}
+			if steps != last {
+				last, since = steps, time.Now()
+				continue
+			}
+			if time.Since(since) < 40*time.Second {
+				continue
+			}
+			buf := make([]byte, 4<<20)
+			n := runtime.Stack(buf, true)
+			for _, g := range strings.Split(string(buf[:n]), "\n\n") {
+				head := g
+				if k := strings.Index(g, "\n"); k > 0 {
+					head = g[:k]
+				}
+				if !strings.Contains(head, "[running") && !strings.Contains(head, "[runnable") {
+					continue
+				}
+				lines := strings.Split(g, "\n")
+				top := ""
+				for _, l := range lines[1:] {
+					if strings.HasPrefix(l, "\t") || strings.HasPrefix(l, "runtime.") || strings.HasPrefix(l, "runtime/") {
+						continue
+					}
+					top = l
+					break
+				}
+				if !strings.Contains(top, "github.com/junegunn/fzf/src") || strings.Contains(top, "/zsim") || strings.Contains(g, "spinWatch") {
+					continue
+				}
+				inHarness := false
+				for _, l := range lines {
+					if strings.Contains(l, "zz_") && strings.HasPrefix(l, "\t") {
+						// harness frames below are fine (the harness starts fzf); only the innermost frames matter
+						break
+					}
+				}
+				_ = inHarness
+				fmt.Fprintf(os.Stderr, "panic: CPU-LOOP fzf code has been running for %v of real time without reaching a synchronisation point (the simulation is frozen at step %d)\n\n%s\n", time.Since(since).Round(time.Second), steps, g)
+				os.Exit(2)
+			}
+			since = time.Now() // nothing of fzf's is running: the harness or the runtime is busy; keep waiting
+		}
+	}()
+	return func() { close(done) }
 }
 
 func runOne(sc scenario, c *runCtx, res *runResult) {
